@@ -16,7 +16,7 @@ ID = "C11"
 LEVEL = "exploration"
 ENGINE = "opmachine"
 
-TIERS = {"quick": {"runs": 1200, "budget": 60.0, "cap": 120.0},
+TIERS = {"quick": {"runs": 6000, "budget": 60.0, "cap": 120.0},
          "thorough": {"runs": 400000, "budget": 900.0, "cap": 300.0}}
 
 
